@@ -2,6 +2,7 @@ import Martian.Lemmas.H2Session
 import Martian.Props.C10.Stages
 import Martian.Props.C10.Locks
 import Martian.Props.C10.Facts
+import Martian.Props.C10.MidBlock
 /-!
 # C10 — an HTTP/2 relay session terminates and releases both connections whichever side ends
 
